@@ -259,6 +259,16 @@ Section SP.
     else None.
 End SP.
 
+(* SecurityContext.decrypt (sigver.py 1322-1343): the key list is the per-request keys handed down from
+   _parse_response (outstanding_certs[InResponseTo] -> verify(keys) -> decrypt_keys(keys)) FOLLOWED BY every configured
+   encryption key (encryption_keypairs); tried in this order, the first that opens wins.  hit = outstanding_certs has an
+   entry for the Response's InResponseTo (otherwise keys = None: configured keys only). *)
+Definition key_list {key : Type} (hit : bool) (req conf : list key) : list key :=
+  if hit then (req ++ conf)%list else conf.
+Definition sp_receive (key : Type) (can_open : key -> cert -> bool)
+           (hit : bool) (req conf : list key) (wr wa : bool) (w : wire) : option (atom * list atom) :=
+  sp_parse key can_open (key_list hit req conf) wr wa w.
+
 (* the instance used by the correspondence: a key is named like its certificate *)
 Definition opens_named (k : string) (c : cert) : bool := cert_eqb c (Good k).
 Definition sp_named := sp_parse string opens_named.
